@@ -47,8 +47,17 @@ func c17Gen(t *rapid.T) c17Case {
 	host = hosts[hi]
 	tail := rapid.SampledFrom([]string{"", "", "/x", "?a=b", "#f", "/%2e%2e/", "/..", "\\x"}).Draw(t, "tail")
 	c.Dest = c17Prefixes[pi] + host + tail
-	mut := rapid.IntRange(0, 11).Draw(t, "mut")
+	mut := rapid.IntRange(0, 13).Draw(t, "mut")
 	switch mut {
+	case 3, 4:
+		// dot-segment climbing: net/http cleans the path of a relative Location
+		// (everything before the first '?'), so "/<seg>/../<sep>host" collapses
+		// to "/<sep>host"; <seg> may hide behind a delimiter the filter treats
+		// as the end of the path
+		seg := rapid.SampledFrom([]string{"x", "#", "#f", ";", ";p", "a#b", "?q", "x?y#z", "#?", "%23", "x/y", ".", "#/x", "%2e", "a;b#c"}).Draw(t, "seg")
+		k := strings.Count(seg, "/") + rapid.IntRange(1, 2).Draw(t, "climb")
+		sep := rapid.SampledFrom([]string{"\\", "/", "%5c", "\t/", "\\\\", "/\\", ""}).Draw(t, "sep")
+		c.Dest = "/" + seg + strings.Repeat("/..", k) + "/" + sep + host + tail
 	case 0:
 		// a control / odd byte somewhere in the first bytes
 		pos := rapid.IntRange(0, min(len(c.Dest), 3)).Draw(t, "pos")
